@@ -679,10 +679,15 @@ func isOverloadFunc(name string) bool {
 }
 
 func initGopPkg(ctx *pkgCtx, pkg *gogen.Package, gopSyms map[string]bool) {
-	for name, f := range ctx.syms {
-		if gopSyms[name] {
-			continue
+	names := make([]string, 0, len(ctx.syms))
+	for name := range ctx.syms {
+		if !gopSyms[name] {
+			names = append(names, name)
 		}
+	}
+	sort.Strings(names) // load the symbols of Go files in a fixed order: their errors must not depend on map order
+	for _, name := range names {
+		f := ctx.syms[name]
 		if _, ok := f.(*typeLoader); ok {
 			ctx.loadType(name)
 		} else if isOverloadFunc(name) {
